@@ -457,6 +457,12 @@ func (t *Tokenizer) Tokenize(input []byte) ([]models.TokenWithSpan, error) {
 				break
 			}
 
+			// Comments are not tokens: record them here, then look for the next
+			// token, so that the token starts at its own first character
+			if t.skipComment() {
+				continue
+			}
+
 			// Check token count limit to prevent DoS attacks
 			if len(tokens) >= MaxTokens {
 				tokenErr = errors.TokenLimitReachedError(len(tokens)+1, MaxTokens, t.getCurrentPosition(), string(t.input))
@@ -595,6 +601,12 @@ func (t *Tokenizer) TokenizeContext(ctx context.Context, input []byte) ([]models
 
 			if t.pos.Index >= len(t.input) {
 				break
+			}
+
+			// Comments are not tokens: record them here, then look for the next
+			// token, so that the token starts at its own first character
+			if t.skipComment() {
+				continue
 			}
 
 			// Check token count limit to prevent DoS attacks
@@ -1224,6 +1236,64 @@ func (t *Tokenizer) readNumber(buf []byte) (models.Token, error) {
 	}, nil
 }
 
+// skipComment consumes the line comment (-- ...) or block comment (/* ... */)
+// that starts at the current position, records it in t.Comments and reports
+// whether there was one. It is called from the tokenize loops, so comments
+// never reach nextToken.
+func (t *Tokenizer) skipComment() bool {
+	if t.pos.Index+1 >= len(t.input) {
+		return false
+	}
+	commentStartIdx := t.pos.Index
+	switch {
+	case t.input[commentStartIdx] == '-' && t.input[commentStartIdx+1] == '-':
+		commentStartPos := t.toSQLPosition(t.pos)
+		// Skip until end of line or EOF
+		for t.pos.Index < len(t.input) {
+			cr, csize := utf8.DecodeRune(t.input[t.pos.Index:])
+			t.pos.AdvanceRune(cr, csize) // Skip the newline too
+			if cr == '\n' {
+				break
+			}
+		}
+		// Trim trailing newline from comment text
+		textEnd := t.pos.Index
+		if t.input[textEnd-1] == '\n' {
+			textEnd--
+		}
+		t.Comments = append(t.Comments, models.Comment{
+			Text:   string(t.input[commentStartIdx:textEnd]),
+			Style:  models.LineComment,
+			Start:  commentStartPos,
+			End:    t.toSQLPosition(t.pos),
+			Inline: t.hasCodeBeforeOnLine(commentStartIdx),
+		})
+		return true
+	case t.input[commentStartIdx] == '/' && t.input[commentStartIdx+1] == '*':
+		commentStartPos := t.toSQLPosition(t.pos)
+		t.pos.Index += 2
+		t.pos.Column += 2
+		// Skip until */ or EOF
+		for t.pos.Index < len(t.input) {
+			cr, csize := utf8.DecodeRune(t.input[t.pos.Index:])
+			t.pos.AdvanceRune(cr, csize)
+			if cr == '*' && t.pos.Index < len(t.input) && t.input[t.pos.Index] == '/' {
+				t.pos.AdvanceRune('/', 1) // End of block comment
+				break
+			}
+		}
+		t.Comments = append(t.Comments, models.Comment{
+			Text:   string(t.input[commentStartIdx:t.pos.Index]),
+			Style:  models.BlockComment,
+			Start:  commentStartPos,
+			End:    t.toSQLPosition(t.pos),
+			Inline: t.hasCodeBeforeOnLine(commentStartIdx),
+		})
+		return true
+	}
+	return false
+}
+
 // readPunctuation picks out punctuation or operator tokens
 func (t *Tokenizer) readPunctuation() (models.Token, error) {
 	if t.pos.Index >= len(t.input) {
@@ -1271,37 +1341,6 @@ func (t *Tokenizer) readPunctuation() (models.Token, error) {
 				}
 				return models.Token{Type: models.TokenTypeArrow, Value: "->"}, nil
 			}
-			// Check for line comment: --
-			if nxtR == '-' {
-				commentStartIdx := t.pos.Index - size // back to first '-'
-				commentStartPos := t.toSQLPosition(Position{Index: commentStartIdx})
-				t.pos.AdvanceRune(nxtR, nxtSize)
-				// Skip until end of line or EOF
-				for t.pos.Index < len(t.input) {
-					cr, csize := utf8.DecodeRune(t.input[t.pos.Index:])
-					if cr == '\n' {
-						t.pos.AdvanceRune(cr, csize) // Skip the newline too
-						break
-					}
-					t.pos.AdvanceRune(cr, csize)
-				}
-				commentEndIdx := t.pos.Index
-				// Trim trailing newline from comment text
-				textEnd := commentEndIdx
-				if textEnd > 0 && t.input[textEnd-1] == '\n' {
-					textEnd--
-				}
-				t.Comments = append(t.Comments, models.Comment{
-					Text:   string(t.input[commentStartIdx:textEnd]),
-					Style:  models.LineComment,
-					Start:  commentStartPos,
-					End:    t.toSQLPosition(t.pos),
-					Inline: t.hasCodeBeforeOnLine(commentStartIdx),
-				})
-				// Return the next token (skip the comment)
-				t.skipWhitespace()
-				return t.nextToken()
-			}
 		}
 		return models.Token{Type: models.TokenTypeMinus, Value: "-"}, nil
 	case '*':
@@ -1309,41 +1348,6 @@ func (t *Tokenizer) readPunctuation() (models.Token, error) {
 		return models.Token{Type: models.TokenTypeMul, Value: "*"}, nil
 	case '/':
 		t.pos.AdvanceRune(r, size)
-		if t.pos.Index < len(t.input) {
-			nxtR, nxtSize := utf8.DecodeRune(t.input[t.pos.Index:])
-			// Check for block comment: /*
-			if nxtR == '*' {
-				commentStartIdx := t.pos.Index - size // back to '/'
-				commentStartPos := t.toSQLPosition(Position{Index: commentStartIdx})
-				t.pos.AdvanceRune(nxtR, nxtSize)
-				// Skip until */ or EOF
-				for t.pos.Index < len(t.input) {
-					cr, csize := utf8.DecodeRune(t.input[t.pos.Index:])
-					if cr == '*' {
-						t.pos.AdvanceRune(cr, csize)
-						if t.pos.Index < len(t.input) {
-							nr, ns := utf8.DecodeRune(t.input[t.pos.Index:])
-							if nr == '/' {
-								t.pos.AdvanceRune(nr, ns) // End of block comment
-								break
-							}
-						}
-					} else {
-						t.pos.AdvanceRune(cr, csize)
-					}
-				}
-				t.Comments = append(t.Comments, models.Comment{
-					Text:   string(t.input[commentStartIdx:t.pos.Index]),
-					Style:  models.BlockComment,
-					Start:  commentStartPos,
-					End:    t.toSQLPosition(t.pos),
-					Inline: t.hasCodeBeforeOnLine(commentStartIdx),
-				})
-				// Return the next token (skip the comment)
-				t.skipWhitespace()
-				return t.nextToken()
-			}
-		}
 		return models.Token{Type: models.TokenTypeDiv, Value: "/"}, nil
 	case '=':
 		t.pos.AdvanceRune(r, size)
